@@ -136,9 +136,9 @@ func boundedFallback(P *Program, fr *FuncResult, opts CheckOpts, reason string) 
 	var err error
 	k := boundedUnroll
 	for ; k >= 2; k-- {
-		cexMode, cexUnroll = true, k
+		cexMode, boundedMode, cexUnroll = true, true, k
 		ex, err = VerifyFunc(P, fn, spec, opts.Prop)
-		cexMode, cexUnroll = false, saved
+		cexMode, boundedMode, cexUnroll = false, false, saved
 		if err == nil && ex != nil && len(ex.obligs) > 0 && len(ex.obligs) <= 3000 {
 			break
 		}
@@ -165,7 +165,7 @@ func boundedFallback(P *Program, fr *FuncResult, opts CheckOpts, reason string) 
 			return nil
 		}
 	}
-	fr2.Bounded = fmt.Sprintf("%s: %s; explored instead: every path with at most %d iterations per loop, callees executed in place (%d obligations discharged) - bounded, not a proof", shortKey(spec.Key), reason, k, len(fr2.Sites))
+	fr2.Bounded = fmt.Sprintf("%s: %s; explored instead: every path with at most %d iterations per loop, callees without contract executed in place (%d obligations discharged) - bounded, not a proof", shortKey(spec.Key), reason, k, len(fr2.Sites))
 	return fr2
 }
 
